@@ -1,6 +1,10 @@
 package rsync
 
-import "sync"
+import (
+	"sync"
+
+	"github.com/rqlite/rqlite/v10/internal/vhook"
+)
 
 // Ordered is a type that can be compared.
 type Ordered interface {
@@ -36,6 +40,7 @@ func (r *ReadyTarget[T]) Subscribe(target T) <-chan struct{} {
 	ch := make(chan struct{})
 	r.mu.Lock()
 	defer r.mu.Unlock()
+	vhook.Trace(r, "rt.sub", "target", target, "cur", r.currentTarget, "closed", target <= r.currentTarget)
 	if target <= r.currentTarget {
 		close(ch)
 	} else {
@@ -54,6 +59,7 @@ func (r *ReadyTarget[T]) Unsubscribe(ch <-chan struct{}) {
 	defer r.mu.Unlock()
 	for i, subscriber := range r.subscribers {
 		if subscriber.ch == ch {
+			vhook.Trace(r, "rt.unsub", "target", subscriber.target)
 			r.subscribers = append(r.subscribers[:i], r.subscribers[i+1:]...)
 			break
 		}
@@ -67,13 +73,16 @@ func (r *ReadyTarget[T]) Signal(index T) {
 	r.mu.Lock()
 	defer r.mu.Unlock()
 	if index <= r.currentTarget {
+		vhook.Trace(r, "rt.signal", "index", index, "cur", r.currentTarget, "ignored", true)
 		return
 	}
 	r.currentTarget = index
+	vhook.Trace(r, "rt.signal", "index", index, "cur", r.currentTarget, "ignored", false)
 	var remainingSubscribers []*Subscriber[T]
 	for _, subscriber := range r.subscribers {
 		if index >= subscriber.target {
 			close(subscriber.ch)
+			vhook.Trace(r, "rt.wake", "target", subscriber.target)
 		} else {
 			remainingSubscribers = append(remainingSubscribers, subscriber)
 		}
@@ -89,6 +98,7 @@ func (r *ReadyTarget[T]) Reset() {
 	var t T
 	r.currentTarget = t
 	r.subscribers = make([]*Subscriber[T], 0)
+	vhook.Trace(r, "rt.reset")
 }
 
 // Len returns the number of subscribers.
